@@ -34,12 +34,15 @@ def make_scenarios(ctx, count, nops):
             s.iface(1, mtu=1500, mac=G.rand_mac(rng))
             s.add("AI 1")
             s.add("TA 1 %s 1 1" % G.rand_mac(rng).hex())
+        last_seq = {}
         for _ in range(nops):
             r = rng.random()
             k = rng.choice(keys)
             p_add = {"fill": 0.5, "churn": 0.35, "expiry": 0.3}[style]
             if r < p_add:
-                seq = rng.getrandbits(16)
+                # a retransmitted Discover re-adds its session under the sequence number it already has
+                seq = last_seq[k] if (k in last_seq and rng.random() < 0.5) else rng.choice([0, 0xFFFF, rng.getrandbits(16), rng.getrandbits(16)])
+                last_seq[k] = seq
                 s.add("TA 0 %s %d %d" % (k[0].hex(), k[1], seq))
                 ops.append(("TA", k, seq))
             elif r < p_add + 0.12:
@@ -137,6 +140,8 @@ def monitor(scn, sobj, rep, sf, ck):
             if k in model:
                 seen.add("refresh")
                 m = model[k]
+                if m["seq"] == seq:
+                    seen.add("refresh-with-unchanged-sequence-number")
                 if at_r is None or (at_r[0], at_r[1]) != k:
                     bad("add-known-key-does-not-return-its-session", "returned slot %s which holds %s" %
                         (r, (at_r[0].hex(), at_r[1]) if at_r else None), i)
@@ -264,6 +269,6 @@ def run(ctx):
     scns = make_scenarios(ctx, ctx.n(2000, 60000), 200)
     run_monitored(ctx, binary, scns, monitor, tag="tbl")
     c = rep.counters
-    for name in ("full-reject", "refresh", "expiry-with-survivors", "clear", "remove", "allc=1/nonempty", "allc=0/nonempty", "allc=1/empty"):
+    for name in ("full-reject", "refresh", "refresh-with-unchanged-sequence-number", "expiry-with-survivors", "clear", "remove", "allc=1/nonempty", "allc=0/nonempty", "allc=1/empty"):
         rep.need(name, c.get("reach:" + name, 0), 20)
     rep.need("ticks_beside_a_second_interface", c.get("ticks_beside_a_second_interface", 0), 1000)
